@@ -184,14 +184,26 @@ let io_line (e : ioerr) : string =
   | Custom CMismatch -> "Err kind=Other errno=0"
 
 (* plant a file directly *)
+let far_future = z_of_string "4000000000000000000"
+let set_dir_time (p : path) (t : z) =
+  let f = !world.w_fs in
+  match name_of f p with
+  | Some i -> (match inode_of f i with
+      | Some x -> world := { !world with w_fs = set_inode f i { x with i_mtime = t; i_atime = t } }
+      | None -> ())
+  | None -> ()
+(* directories planted by a scenario are created "now" by the harness: never older than anything the
+   operation under test compares them with *)
 let rec mkdirs (p : path) =
   match p with
   | [] -> ()
   | _ ->
     let parent = List.rev (List.tl (List.rev p)) in
     mkdirs parent;
+    let existed = (name_of !world.w_fs p <> None) in
     let (f', _) = sem !world.w_fs env0 (CMkdir p) in
-    world := { !world with w_fs = f' }
+    world := { !world with w_fs = f' };
+    if not existed then set_dir_time p far_future
 
 let plant (p : path) (content : n list) (mode : int) (mtime : z) (atime : z) =
   let parent = List.rev (List.tl (List.rev p)) in
@@ -251,6 +263,7 @@ let run () =
          | "handles" -> nhandles := int_of_string f.(1)
          | "build" -> ()
          | "mkdir" -> mkdirs (path_of_string f.(1))
+         | "mkdirt" -> mkdirs (path_of_string f.(1)); set_dir_time (path_of_string f.(1)) (z_of_string f.(2))
          | "plant" -> plant (path_of_string f.(1)) (expand f.(2)) (int_of_string ("0o" ^ f.(3))) (z_of_string f.(4)) (z_of_string f.(5))
          | "trig" ->
            for i = 1 to Array.length f - 1 do
